@@ -129,35 +129,6 @@ Proof.
   rewrite take_app_exact, drop_app_exact. reflexivity.
 Qed.
 
-Lemma dom_replace_formula (d : str) off cnt x : off <= NList.len d ->
-  DomCharData.dom_replace d off cnt x = Some (take off d ++ x ++ drop (N.min (off + cnt) (NList.len d)) d).
-Proof.
-  intros H. unfold DomCharData.dom_replace.
-  destruct (N.ltb_spec (NList.len d) off); [lia|].
-  destruct (N.ltb_spec (NList.len d) (off + cnt)) as [H1|H1].
-  - replace (N.min (off + cnt) (NList.len d)) with (NList.len d) by lia.
-    rewrite (drop_all (NList.len d) d) by lia. rewrite app_nil_r. reflexivity.
-  - replace (N.min (off + cnt) (NList.len d)) with (off + cnt) by lia. reflexivity.
-Qed.
-
-Lemma dom_insert_replace (d : str) off x : DomCharData.dom_insert d off x = DomCharData.dom_replace d off 0 x.
-Proof.
-  unfold DomCharData.dom_insert, DomCharData.dom_replace. destruct (N.ltb_spec (NList.len d) off); [reflexivity|].
-  rewrite N.add_0_r. destruct (N.ltb_spec (NList.len d) off); [lia | reflexivity].
-Qed.
-
-Lemma dom_delete_replace (d : str) off cnt : DomCharData.dom_delete d off cnt = DomCharData.dom_replace d off cnt [].
-Proof.
-  unfold DomCharData.dom_delete, DomCharData.dom_replace. destruct (NList.len d <? off); [reflexivity|].
-  destruct (NList.len d <? off + cnt); [rewrite app_nil_r; reflexivity | reflexivity].
-Qed.
-
-Lemma dom_append_replace (d x : str) : Some (DomCharData.dom_append d x) = DomCharData.dom_replace d (NList.len d) 0 x.
-Proof.
-  unfold DomCharData.dom_append, DomCharData.dom_replace. rewrite N.ltb_irrefl, N.add_0_r, N.ltb_irrefl.
-  rewrite (take_all (NList.len d) d) by lia. rewrite (drop_all (NList.len d) d) by lia. rewrite app_nil_r. reflexivity.
-Qed.
-
 Lemma valid_str_storable k r : chardata k = true ->
   valid_str k r = DomCharData.storable (DomL1.data_kind (abs_type k)) r.
 Proof.
